@@ -3,10 +3,10 @@
 EXTENDS Filters
 Kinds == {"create", "update", "delete", "resume", "field", "event", "daemon", "timer", "index"}
 Decls == [kind : Kinds, lab : {"none", "eq", "present", "absent", "cb"}, lab2 : {"none", "eq", "absent"},
-          val : {"none", "field", "eq1", "present", "absent", "cb_eq1", "cb_none"},
-          old : {"none", "eq1", "eq2", "present", "absent"}, new : {"none", "eq1", "eq2", "present", "absent"},
+          val : {"none", "field", "eq1", "eq3", "present", "absent", "cb_eq1", "cb_none"},
+          old : {"none", "eq1", "eq2", "eq3", "present", "absent"}, new : {"none", "eq1", "eq2", "eq3", "present", "absent"},
           when : {"none", "T", "F"}]
-States == [reason : {"create", "update", "delete", "resume", "-"}, la : {"-", "x", "y"}, lb : {"-", "y"}, fo : 0..2, fn : 0..2]
+States == [reason : {"create", "update", "delete", "resume", "-"}, la : {"-", "x", "y"}, lb : {"-", "y"}, fo : 0..3, fn : 0..3]
 VARIABLES d, s
 Init == d \in {x \in Decls : (x.old = "none" /\ x.new = "none") \/ (x.kind \in UpdateLike /\ x.val = "none")} /\ s = [reason |-> "-", la |-> "-", lb |-> "-", fo |-> 0, fn |-> 0]
 Next == s.reason = "-" /\ s.la = "-" /\ s' \in States /\ UNCHANGED d
